@@ -698,9 +698,25 @@ def _sorted(interp, xs, key=None, reverse=False):
     seq = interp.concrete_iter(xs)
     if seq is None:
         raise Unsupported("sorted of symbolic sequence")
-    if all(isinstance(x, (str, int)) for x in seq):
+    if key is None and all(isinstance(x, (str, int)) for x in seq):
         return sorted(seq, reverse=bool(reverse))
-    raise Unsupported("sorted of symbolic values")
+    if len(seq) > 4:
+        raise Unsupported("sorted of more than 4 symbolic keys")
+    # stable insertion sort on the (possibly symbolic) keys: every comparison is a branch, so each consistent ordering is one path
+    keyed = [(interp.call(key, [x], {}) if key is not None else x, x) for x in seq]
+    out = []
+    for kv, x in keyed:
+        pos = len(out)
+        while pos > 0:
+            prev = out[pos - 1][0]
+            c = (prev > kv) if isinstance(prev, (int, float, str)) and isinstance(kv, (int, float, str)) else Sym.lift(prev) > kv
+            if (c if isinstance(c, bool) else interp.branch(c)):
+                pos -= 1
+            else:
+                break
+        out.insert(pos, (kv, x))
+    res = [x for _, x in out]
+    return res[::-1] if reverse else res
 
 
 @lib('builtins.any')
@@ -2387,6 +2403,7 @@ class FileW:
 
 LIBATTR[('filew', 'write')] = lambda interp, f: (lambda i2, data: f.write(i2, data))
 LIBATTR[('filew', 'close')] = lambda interp, f: (lambda i2: f.close_ctx(i2))
+LIBATTR[('filew', 'tell')] = lambda interp, f: (lambda i2: f.nbytes)
 
 
 class TextFileR:
@@ -2434,3 +2451,13 @@ def blimpy_waterfall(interp, filename=None, f_start=None, f_stop=None, t_start=N
     cont = I.SObj(None, {'selection_shape': tuple(info['selection_shape']), 'filename': key}, tag='container')
     return I.SObj(None, {'header': dict(info['header']), 'container': cont, 'filename': key,
                          'selection': {'f_start': f_start, 'f_stop': f_stop, 't_start': t_start, 't_stop': t_stop, 'load_data': load_data}}, tag='Waterfall')
+
+
+@lib('os.path.getmtime')
+def os_getmtime(interp, path):
+    """Modification time of a file: an arbitrary real number per path (the file system is not modelled)."""
+    memo = interp.__dict__.setdefault('mtime_memo', {})
+    k = path.s if hasattr(path, 's') else str(path)
+    if k not in memo:
+        memo[k] = CTX.fresh('mtime', 'real')
+    return memo[k]
